@@ -80,6 +80,32 @@ def r1(cx, g):
          "interface_name <= L_upper (>= 2 elements, first char a letter, no element starts or ends with a hyphen)", cuts)
     incl(cx, "grammar:interface_name:lower-bound", "interface_name", site("interface_name"), REF_IFACE_LOWER, ifc,
          "L_lower (strict lower-case reverse-domain names) <= interface_name", cuts)
+    if cx.tier == "thorough":
+        # independent cross-check of the automata route: run the grammar rules under exact PEG semantics (interpreter over the IR)
+        # on every string over one representative per character class up to 7 characters and compare with the references
+        from itertools import product
+        alpha = ["a", "Z", "7", "-", ".", "_", " "]
+        dn = peg.compile_dfa(REF_NAME, cuts); df = peg.compile_dfa(REF_FIELD, cuts)
+        dl = peg.compile_dfa(REF_IFACE_LOWER, cuts); du_ = peg.compile_dfa(REF_IFACE_UPPER, cuts)
+        nstr = 0; diffs = []
+        for L in range(0, 8):
+            for tup in product(alpha, repeat=L):
+                w = "".join(tup); nstr += 1
+                pn = peg.peg_match(g, ("call", "name"), w, 0, {}) == len(w)
+                pf = peg.peg_match(g, ("call", "field_name"), w, 0, {}) == len(w)
+                pi = peg.peg_match(g, ("call", "interface_name"), w, 0, {}) == len(w)
+                if pn != peg.dfa_accepts(dn, w): diffs.append(("name", w))
+                if pf != peg.dfa_accepts(df, w): diffs.append(("field_name", w))
+                if peg.dfa_accepts(dl, w) and not pi: diffs.append(("interface_name rejects a strict reverse-domain name", w))
+                if pi and not peg.dfa_accepts(du_, w): diffs.append(("interface_name accepts", w))
+                if len(diffs) > 3: break
+            if len(diffs) > 3: break
+        cx.check(not diffs, "C11.R1", "grammar:lexical:peg-cross-check", GRAMMAR, "PEG semantics disagree with the reference languages: %s" % diffs[:3],
+                 note_ok="PEG interpreter agrees with the reference automata on all %d strings over {a,Z,7,-,.,_,space} up to 7 characters" % nstr)
+        rules2 = dict(g.rules); rules2["btype"] = ("lit", B)
+        nt, d2 = peg.bounded_compare(g, "type_", REF_TYPE, ["?", "[]", "[string]", B], 8, rules=rules2)
+        cx.check(d2 is None, "C11.R1", "grammar:type_:peg-cross-check", site("type_"), "PEG semantics of type_ disagree with the documented type language on %r" % (d2[0].replace(B, "<btype>") if d2 else ""),
+                 note_ok="PEG interpreter agrees with the documented type language on all %d token strings up to 8 tokens" % nt)
     # ---- type prefix language: type_ must be right-linear in itself; btype is an opaque symbol
     t = g.rules["type_"]
     alts = t[1] if t[0] == "alt" else [t]
